@@ -72,8 +72,8 @@ LEVEL_TEXT = {
  'C13': "Proved for arbitrary constants: additivity, linearity, unit invariance, output unit, Rayleigh-Jeans factor with beam cancellation, and the whole error table (a number iff family supported, required items present and well-dimensioned, output a flux density). Astropy's unit engine is trusted; results compared with exact rationals and with the textbook formula.",
  'C14': "Proved on an object-heap model mirroring the cache code assignment by assignment: for every history of cached queries and prunes every observation equals the one computed from the live links (C14_history_sound); the code before the repair is proved stale by witnesses. Every history is mirrored query by query on the heap model (answers and cache fill state) and compared with a dendrogram rebuilt from links, label map and data.",
  'C15': "Definitional in the model (compute is a function); proved: the repaired significance test is width-free, the old one was not (witness); determinism for distinct values. The check runs every case as repeat / verbose / layouts / dtypes / after a prelude and requires identical results equal to the model. Known finding K4: with ties the unstable, dtype-specific argsort makes the result depend on the dtype.",
- 'C16': "Proved: the whole pixel loop is equivariant under any pixel renaming preserving adjacency and any order-preserving value map (C16_run_equivariant), instantiated for arbitrary axis permutations, flips, unit axes, padding, affine maps with the built-in criteria; threshold restriction for distinct values without pruning.",
- 'C17': "Proved: characterisation of the periodic adjacency on one axis and in coordinates (wraps exactly on declared axes, lengths 1 and 2 included), symmetry, shift automorphism, and shift invariance of the whole run (C17_shift_invariance).",
+ 'C16': "Proved: the whole pixel loop is equivariant under any pixel renaming preserving adjacency and any order-preserving value map (C16_run_equivariant), instantiated for arbitrary axis permutations, flips, unit axes, padding, affine maps with the built-in criteria; threshold restriction for distinct values without pruning; ties clause: the number of leaves without pruning is invariant under every such transformation whatever the tie order (C16_leaf_count_invariant), assigned pixels / trunk regions are order-independent for monotone criteria (C17_assigned_order_independent) and not for min_sum on negative data (C16_K6_witness, known finding K6).",
+ 'C17': "Proved: characterisation of the periodic adjacency on one axis and in coordinates (wraps exactly on declared axes, lengths 1 and 2 included), symmetry, shift automorphism, and shift invariance of the whole run (C17_shift_invariance); ties clause: assigned pixels and trunk regions do not depend on the order of equal values for criteria that can only turn true as a structure grows (C17_assigned_order_independent, C17_trunk_regions_order_independent, C17_root_survives_iff), the hypothesis cannot be dropped (C17_K5_witness, known finding K5), leaf count without pruning is order-independent.",
  'C18': "Proved: stable sorting by key in both directions, leaves at distinct positions below the leaf count, every structure's leaves contiguous, branch between its outermost children, line geometry and mapping. Positions (exact rationals) and all segments compared with the model, incl. all 625 forest shapes <= 7 nodes in the thorough tier; Matplotlib is trusted to draw what it is given.",
  'C19': "Proved on a state-machine model of hub and viewers: click / pick / lasso semantics, slot independence, exactly-once notification, highlighted lines = selection with descendants, mask = region, scatter rows round trip. A head-less Agg viewer with linked Scatter is driven with synthetic events and compared after every event. Partial: rendering and GUI event delivery are Matplotlib's.",
  'C20': "Proved: the specified relation stated outright, canonical label form equal iff same partition, symmetry, reflexivity; the operator as implemented characterised exactly and proved to ignore the other operand's structures (known finding D10, not repairable without breaking 6 pinned tests). The real == is compared with the Lean eqD on every pair; deviations other than D10 are reported.",
@@ -126,11 +126,11 @@ reg(Prop('C16', pi.gen_item_C16, pi.eval_C16, 2500, 120000,
          "each seeded case is transformed by a random axis permutation, a flip, an inserted unit axis, a NaN / below-threshold border, an affine "
          "map a*v+b (a a power of two) with mapped min_value / min_delta, a strictly increasing map (no pruning) and a raised threshold; "
          "hierarchy compared on mapped pixels for distinct values, trunk regions / assigned pixels / leaf count for ties; every run is also "
-         "compared with the model", ASSUME_COMPUTE, ['C16_run_equivariant', 'C16_similarity_regions', 'C16_similarity_parent', 'C16_similarity_counts', 'C16_similarity_trunk', 'C16_affine_builtin', 'C16_rename_builtin', 'C16_axis_permutation', 'C16_flip', 'C16_unit_axis', 'C16_pad', 'C16_threshold_restriction']))
+         "compared with the model", ASSUME_COMPUTE, ['C16_run_equivariant', 'C16_similarity_regions', 'C16_similarity_parent', 'C16_similarity_counts', 'C16_similarity_trunk', 'C16_affine_builtin', 'C16_rename_builtin', 'C16_axis_permutation', 'C16_flip', 'C16_unit_axis', 'C16_pad', 'C16_threshold_restriction', 'C16_leaf_count_invariant', 'C16_K6_witness']))
 reg(Prop('C17', pi.gen_item_C17, pi.eval_C17, 3000, 200000,
          "arrays in 1-4 dimensions with axes of length 1-6, a random non-empty subset of periodic axes (passed as int or list), cyclic shifts "
          "by 1, n-1, n and a random amount along a periodic axis; contour predicate with an independent adjacency (wrap on declared axes "
-         "only), model correspondence", ASSUME_COMPUTE, ['C17_axis', 'C17_neighbours', 'C17_grid_symmetric', 'C17_shift_automorphism', 'C17_shift_invariance']))
+         "only), model correspondence", ASSUME_COMPUTE, ['C17_axis', 'C17_neighbours', 'C17_grid_symmetric', 'C17_shift_automorphism', 'C17_shift_invariance', 'C17_assigned_order_independent', 'C17_trunk_regions_order_independent', 'C17_root_survives_iff', 'C17_K5_witness', 'C17_leaf_count_order_independent']))
 reg(Prop('C20', pi.gen_item_C20, pi.eval_C20, 4000, 300000,
          "pairs of dendrograms: same call twice, different min_delta/min_npix, different user criteria, one pixel changed, NaN mask changed, "
          "saved-and-loaded copy, pruned copy, reshaped data, different min_value, non-dendrogram objects; both argument orders",
